@@ -84,3 +84,23 @@ app_prop("C11", "stream", ["str", "bank"],
 app_prop("C12", "stream", ["str", "bank"],
     "Coq theorems: in every state satisfying the stream invariant a claim on a funded stream succeeds, a cancel succeeds and refunds the unreleased remainder, an affordable top-up succeeds when the new zero time is representable; claim and cancel never return an arithmetic panic. The unrepresentable-top-up class is exhibited as a machine-checked witness (listed finding). Replayed against real histories with 18-decimal amounts above 2^63 and fee rates incl. 1.",
     "Trusted: as C10.")
+
+app_prop("C03", "ent,mixed", ["ent"],
+    "Coq theorems over all histories of the enterprise model (messages, BeginBlock, governance parameter updates, fee unlocks): raising needs a whitelisted purchaser; a decision needs a current signer, a raised order and no earlier decision by that signer (decision signers of an order are pairwise distinct in every reachable state); the tally is exactly the stated rule for all valid parameters (Go's int()/uint64 casts proved harmless); status moves only nil->raised->accepted->completed or raised->rejected and terminal orders are bit-for-bit frozen; an order accepted before a BeginBlock is completed in it, crediting exactly its amount to locked[purchaser], totalLocked and supply, once. Replayed against real histories; the tally rule is also recomputed independently on the real application at every BeginBlock.",
+    "Trusted: Coq kernel; hand-written enterprise+bank model and its agreement with x/enterprise as far as generated histories go. Bech32 spelling is not modelled: the double-decision-by-upper-case defect was repaired by a fix: commit and is exercised by a dedicated implementation-side scenario.")
+app_prop("C04", "ent,fees,mixed", ["ent", "bank"],
+    "Coq theorems: one inductive invariant over all enterprise histories - escrow balance = total locked = sum of locked entries, total spent = sum of spent entries, locked[a]+spent[a] = sum of a's completed orders, the escrow holds no other denomination - and the exact case split of the fee unlock (fee <= locked: unlock fee; locked < fee <= liquid+locked: unlock all; else nothing; a fee carrying another denomination makes the undelegation fail and changes nothing); messages and parameter updates leave the bank untouched; the escrow is a blocked recipient. App-level (props/C04app.v): no user transaction moves the escrow except by unlocking. Replayed against real histories; the books are recomputed on the real application after every operation.",
+    "Trusted: as C03; vesting accounts are outside the model.")
+app_prop("C06", "fees", ["result"],
+    "Coq theorems: if CheckTx admits a transaction with top-level WRKChain (resp. BEACON) messages then the amount offered in the module's fee denomination equals exactly the sum of the registration / record / per-slot fees of those messages under the current parameters, and liquid + locked funds of the payer cover it - for every accompanying denomination, order and multiplicity (permutation-invariance and additivity proved); slot counts >= 2^63 are rejected. The two listed gaps are machine-checked witnesses (mixed WRKChain+BEACON; registry message nested in MsgExec). CheckTx results of the real application are compared with the model (error classes: wrong denom / insufficient / too much / exceeds max storage) and with an independent fee oracle.",
+    "Trusted: as C03; fee decorators run only in CheckTx (ctx.IsCheckTx), which is what the property speaks about.", quick_n=60)
+app_prop("C13", "mixed,ent,reg,stream", ["ent", "wrk", "bcn", "str", "params"],
+    "Coq theorems: a message executes successfully only if its signer is entitled in the state in which it runs (whitelisted purchaser, current enterprise signer, registered owner, the stream's sender / receiver, the governance authority), recursively through MsgExec where every inner message runs for the grantee itself or for a granter whose grant exists at that point; a non-entitled message is an error; a transaction lacking valid signatures changes nothing; user transactions can never change parameters (no grant is ever issued by a module account: invariant). GetSigners fields are read from the source by the translator (wiring_get_signers). Replayed against real histories crossing message types with signers.",
+    "Trusted: as C03; signature verification itself is the SDK's (one bit per transaction in the model).")
+app_prop("C14", "mixed,fees,ent", ["ent", "wrk", "bcn", "str", "params", "bank"],
+    "Coq theorems: a transaction that fails before execution leaves the state unchanged; one whose k-th message fails (error or panic, every k) keeps exactly the ante stage's effects, and the ante stage touches only fee balances and - for registry transactions - the locked/spent books; CheckTx never executes messages; governance proposals are atomic; EndBlock is total. App-level (props/C14app.v): BeginBlock never panics in reachable states outside the listed class (enterprise denomination changed while an accepted order waits), which is a machine-checked witness. Replayed against real histories with panicking messages; every failed real transaction is checked to change nothing but fee/unlock observables.",
+    "Trusted: as C03. Partial: that baseapp.runTx really recovers panics and discards its caches is runtime behaviour - validated by the correspondence (panicking messages occur in the histories), not proved.")
+app_prop("C16", "mixed,ent,reg", ["params"],
+    "Coq theorems: each Params.Validate is equivalent to the stated validity predicate (with Go's casts); an update with any invalid field is rejected as a whole; stored parameters are valid in every reachable state of the node (deliver, check and committed states); only a governance update changes parameters and the new values are what every later fee check, limit check, tally and fee split reads (rewriting lemmas). Validate() of the four real modules is compared with the model on generated parameter structures; governance updates are executed mid-history on the real chain.",
+    "Trusted: as C03.",
+    extra_harness={"harness": [{"cmd": "params", "quick": ["-n", 3000], "thorough": ["-n", 100000, "-shard", 4000]}], "model_targets": ["model/ParamsCheck.vo"]})
